@@ -144,7 +144,9 @@ def gen_world(rng, ntorrents=None, features=()):
     w.docs = [g.doc for g in w.gts]
     w.dirs.add(w.export)
     nscan = rng.range(1, 3)
-    scan_names = [(b"scan%d" % i,) if rng.chance(2, 3) else (b"outer%d" % i, b"scan") for i in range(nscan)]
+    # directory names that are string prefixes of one another (scan1 / scan10, lib / lib2) are deliberate
+    pool = [(b"scan0",), (b"scan1",), (b"scan10",), (b"lib",), (b"lib2",), (b"outer0", b"scan"), (b"outer1", b"scan"), (b"outer1", b"scan2")]
+    scan_names = rng.shuffle(pool)[:nscan]
     for s in scan_names:
         w.add_file(s + (b".keep",), b"k")   # makes the directories exist
     w.scan = list(scan_names)
